@@ -41,9 +41,14 @@ def expected(asm, spec, L):
             e["friction"] = f * Lr * rho * v * v / (2.0 * de)
             sg = a.get("SpacerGrid")
             if sg:
-                K = float(reg.coolant_int_params["grid_loss_coeff"])
+                # a loss coefficient given in the input is the reference itself; a correlation value is read from the region
+                # (a missing value with grids in the input makes the closed form unsatisfiable: inf)
+                if sg.get("loss_coeff") is not None:
+                    K = float(sg["loss_coeff"])
+                else:
+                    K = float(reg.coolant_int_params.get("grid_loss_coeff", np.inf))
                 n = sum(1 for zg in sg["axial_positions"] if reg.z[0] < zg < reg.z[1])
-                e["spacer_grid"] = n * K * rho * v * v / 2.0
+                e["spacer_grid"] = n * K * rho * v * v / 2.0 if n else 0.0
                 e["n_grid"] = n
         else:
             f = float(reg.coolant_params["ff"])
